@@ -78,6 +78,9 @@ type prioResult struct {
 	SatChecks       int // checkpoints at which every priority held exactly its share
 	Probes          int // progress probes evaluated
 	AloneProbes     int
+	LoneBursts      int
+	LoneSteps       int // deliveries that had to happen without a release while one priority was alone
+	LoneLegitWaits  int
 	Terminated      bool
 	TermWay         string
 	ErrValues       []string
@@ -123,6 +126,7 @@ type prioExec struct {
 	inRecv  atomic.Bool  // the stepper is inside a blocking receive
 	heldBy  map[uint]int
 	shares  map[uint]uint
+	div     divFn
 	relPend atomic.Int64
 	abort   chan struct{}
 	wg      sync.WaitGroup
@@ -394,6 +398,12 @@ func (x *prioExec) checkTermination(what string) {
 		}
 		if int64(in.recv) < in.wcCount.Load() {
 			x.fail("C07", "early-termination", "%s although priority %d had %d written items of which only %d were delivered", what, in.P, in.wcCount.Load(), in.recv)
+			// the same observation is a loss of written items (C02) and, after control calls, a
+			// registered channel that was not served (C17)
+			x.fail("C02", "lost-at-termination", "the discipline terminated normally but priority %d (channel #%d) had %d items written before its close of which only %d were delivered", in.P, in.ID, in.wcCount.Load(), in.recv)
+			if x.res.CtlOps > 0 {
+				x.fail("C17", "registered-channel-not-served", "the discipline terminated normally but channel #%d registered for priority %d (by AddInput or at creation) had %d written items of which only %d were delivered", in.ID, in.P, in.wcCount.Load(), in.recv)
+			}
 			return
 		}
 	}
@@ -606,6 +616,8 @@ func (x *prioExec) do(op POp) {
 		x.progressProbe()
 	case "A":
 		x.aloneProbe(op)
+	case "B":
+		x.loneBurstProbe(op)
 	case "X":
 		x.saturationCheckpoint()
 	case "H":
@@ -713,6 +725,102 @@ func (x *prioExec) aloneProbe(op POp) {
 	x.res.AloneProbes++
 	if !ok && !x.termSeen && !x.mon.faulted.Load() {
 		x.fail("C06", "alone-not-granted-all", "priority %d alone has %d items and nothing is in flight, but only %d of %d handlers were occupied within the progress window (no release issued)", op.P, n, len(x.held), x.sc.H)
+	}
+}
+
+// reachEmpty releases and drains until nothing is in flight and every written item was
+// delivered; false if that state could not be reached.
+func (x *prioExec) reachEmpty() bool {
+	for i := 0; i < 400 && !x.termSeen; i++ {
+		x.startRelease(x.pickRelease(POp{Mode: "all"}))
+		x.settle()
+		empty := len(x.held) == 0 && x.relPend.Load() == 0
+		for _, o := range x.inputs {
+			if o.undelivered() || o.enq > o.recv {
+				empty = false
+			}
+		}
+		if empty {
+			return !x.termSeen
+		}
+	}
+	return false
+}
+
+// loneBurstProbe — C06: starting from the empty state, one priority alone receives data in
+// several bursts while nothing is released. As long as fewer than H of its items are in flight
+// and it has an undelivered item, another item must arrive within L - unless the scheduler's
+// documented wait applies: the lone priority is above its share and the vacant handlers cannot
+// be divided among the other (uncrowded) priorities so that each gets at least one (the divider
+// itself is asked). That wait ends the probe; it is not a violation.
+func (x *prioExec) loneBurstProbe(op POp) {
+	in := x.inputs[op.P]
+	if in == nil || in.closeEnq || !x.reachEmpty() {
+		return
+	}
+	var others []uint
+	if x.sc.isV1() {
+		for p := range x.inputs {
+			if p != op.P {
+				others = append(others, p)
+			}
+		}
+	} else {
+		for _, spec := range x.sc.Inputs {
+			if spec.P != op.P {
+				others = append(others, spec.P)
+			}
+		}
+	}
+	sort.Slice(others, func(i, j int) bool { return others[i] > others[j] })
+	H := int(x.sc.H)
+	legitWait := func(k int) bool {
+		v := H - k
+		if v <= 0 {
+			return true
+		}
+		if uint(k) <= x.shares[op.P] || len(others) == 0 {
+			return false
+		}
+		d := map[uint]uint{}
+		x.div(others, uint(v), d)
+		for _, q := range others {
+			if d[q] == 0 {
+				return true
+			}
+		}
+		return false
+	}
+	x.res.LoneBursts++
+	written := 0
+	for burst := 0; burst < 4 && written <= H && !x.termSeen; burst++ {
+		n := 1 + x.rng.IntN(H)
+		if in.Cap > 0 && n > in.Cap {
+			n = in.Cap
+		}
+		in.write(n)
+		x.res.Written += n
+		written += n
+		x.logf("lone burst #%d: %d items to priority %d (held %d)", burst, n, op.P, len(x.held))
+		for !x.termSeen {
+			x.ctl.SetPhase("lone-priority-burst", "C06")
+			x.settle()
+			k := len(x.held)
+			if k >= H || !in.undelivered() {
+				x.res.LoneSteps += n // the burst went through (or all handlers are occupied) without any release
+				break
+			}
+			if legitWait(k) {
+				x.res.LoneLegitWaits++
+				x.logf("lone burst: scheduler may wait for a feedback at %d of %d (vacant handlers cannot give every other priority one)", k, H)
+				return
+			}
+			before := x.res.Received
+			if !x.await(prioL, func() bool { return x.res.Received > before }) && !x.termSeen && !x.mon.faulted.Load() {
+				x.fail("C06", "lone-burst-stalled", "priority %d is alone in having data (an undelivered item is waiting) and alone in flight with %d of %d handlers, its share is %d and the %d vacant handlers can give every other priority one, but nothing more was delivered within %s (virtual) although no release is needed", op.P, k, H, x.shares[op.P], H-k, prioL)
+				return
+			}
+		}
 	}
 }
 
@@ -1002,6 +1110,7 @@ func runPrioV(sc PrioScenario, ctl *bubbleCtl) *prioResult {
 	}
 	div := customDivider(sc.Divider, sc.DivSeed)
 	x.shares = sharesOf(div, prios, sc.H)
+	x.div = div
 	x.mon = newDivMonitor(x, div)
 	b := prioBuild{Ver: sc.Ver, Div: x.mon.divide, DivV1: x.mon.divideV1, H: sc.H, OutCap: sc.OutCap, FbCap: sc.FbCap, Abort: x.abort, Entered: total + 8*int(sc.H) + 4096}
 	for _, in := range x.chans {
